@@ -83,7 +83,7 @@ package timeout
 //@ func (c *callControl) add(fu *future)
 //@   props C12
 //@   requires c.wf() && fu != nil && fu.idx < 0 && fu.f != nil
-//@   modifies *c.futures, (*c.futures)[*], spare(*c.futures), each(g, *future, c.futures.holds(g) || g == fu, g.idx), c.watchers
+//@   modifies ops(c.wakeCh), *c.futures, (*c.futures)[*], spare(*c.futures), each(g, *future, c.futures.holds(g) || g == fu, g.idx), c.watchers
 //@   ensures c.wf() && c.futures.holds(fu) && c.othersKept(fu) && fu.f == old(fu.f) && fu.fireT == old(fu.fireT)
 
 // cancel removes exactly fu (if it is still scheduled) and clears its function; a future that already fired or was
@@ -91,7 +91,7 @@ package timeout
 //@ func (c *callControl) cancel(fu *future)
 //@   props C12
 //@   requires c.wf() && fu != nil
-//@   modifies *c.futures, (*c.futures)[*], each(g, *future, c.futures.holds(g), g.idx), fu.f
+//@   modifies ops(c.wakeCh), *c.futures, (*c.futures)[*], each(g, *future, c.futures.holds(g), g.idx), fu.f
 //@   ensures c.wf() && !c.futures.holds(fu) && fu.idx < 0 && c.othersKept(fu) && len(*c.futures) <= old(len(*c.futures))
 //@   ensures old(fu.idx) < 0 ==> fu.f == old(fu.f) && len(*c.futures) == old(len(*c.futures))
 //@   ensures old(fu.idx) >= 0 ==> fu.f == nil && len(*c.futures) == old(len(*c.futures)) - 1
@@ -99,7 +99,7 @@ package timeout
 //@ func (fu *future) Cancel()
 //@   props C12
 //@   requires cc.wf() && fu != nil
-//@   modifies *cc.futures, (*cc.futures)[*], each(g, *future, cc.futures.holds(g), g.idx), fu.f
+//@   modifies ops(cc.wakeCh), *cc.futures, (*cc.futures)[*], each(g, *future, cc.futures.holds(g), g.idx), fu.f
 //@   ensures cc.wf() && !cc.futures.holds(fu) && fu.idx < 0 && cc.othersKept(fu)
 //@   ensures old(fu.idx) < 0 ==> fu.f == old(fu.f)
 
@@ -107,7 +107,7 @@ package timeout
 //@ func Call(f func(), timeout time.Duration) Future
 //@   props C12
 //@   requires cc.wf()
-//@   modifies *cc.futures, (*cc.futures)[*], spare(*cc.futures), each(g, *future, cc.futures.holds(g), g.idx), cc.watchers, clock
+//@   modifies ops(cc.wakeCh), *cc.futures, (*cc.futures)[*], spare(*cc.futures), each(g, *future, cc.futures.holds(g), g.idx), cc.watchers, clock
 //@   ensures typeIs(r0, *future) && fresh(cast(*future, r0)) && cast(*future, r0).f == f && cast(*future, r0).fireT == tadd(clock, timeout) && !before(clock, old(clock))
 //@   ensures cc.wf() && (f != nil ==> cc.futures.holds(cast(*future, r0))) && (f == nil ==> cast(*future, r0).idx < 0) && cc.othersKept(cast(*future, r0))
 
